@@ -27,7 +27,7 @@ assumptions = [
 ]
 trusted = [
     "translate/cextract.py (clang-14 JSON AST of type_traits.c/types.h/type_int.c -> Generated/TypeIds.lean, TypeTables.lean, regenerated every run)",
-    "hand-written model MptModel/Impl/Registry.lean tied to mptcore/types/type_traits.c, alias_typeid.c by harness/drv_types.c",
+    "hand-written model MptModel/Impl/Registry.lean tied to mptcore/types/type_traits.c, alias_typeid.c by harness/drv_types.c, and to the C++ wrappers (mpt++/type_traits_wrap.cpp, metatype_basic.cpp) by harness/drvxx_types.cpp",
 ]
 
 TRANSLATE = os.path.join(build.VERIF, "translate")
@@ -45,7 +45,7 @@ def generate(chk):
 
 
 def corpus(chk):
-    return gen.corpus(id)
+    return [(n, sc) for n, sc in gen.corpus(id) if sc and sc[0].startswith("t ")]
 
 
 BUILTIN = [1, 4, 5, 8, 9, 11, 24, 25, 26] + [ord(c) for c in "cbynqiuxtfdes"] + \
@@ -174,6 +174,79 @@ def scripts(tier, seed, scale=1):
         ops.append("t sweep")
         out.append(S("rnd:%d" % h, ops))
     return out
+
+
+class _XX:
+    """second part: the C++ face of the registry (mpt::type_traits wrappers of mpt++/type_traits_wrap.cpp and
+    metatype::basic::pointer_traits of mpt++/metatype_basic.cpp) through harness/drvxx_types.cpp"""
+    id = "C06"
+    area = "types"
+    driver = "drvxx_types"
+    cxx = True
+    per_process = 1
+    fixed_lines = 1
+
+    @staticmethod
+    def corpus(chk):
+        return [(n, sc) for n, sc in gen.corpus(id) if sc and sc[0].startswith("tx ")]
+
+    @staticmethod
+    def scripts(tier, seed, scale=1):
+        out = []
+        X = lambda name, ops: (name, ["tx reset"] + ops)
+        names = ["", "a", "abc", "abcd", "basic", "logger", "metatype", "meta", "iter", "abcd", None, None, "x" * 40]
+        for first in ("iface", "meta"):
+            other = "meta" if first == "iface" else "iface"
+            ops = ["tx %s %s" % (first, hx(n)) for n in names] + ["tx %s %s" % (other, hx(n)) for n in names if n is not None]
+            ops += ["tx named %s %d" % (hx(n), ln) for n in names if n for ln in (-1, len(n), len(n) - 1)]
+            ops += ["tx basicmeta", "tx basicmeta", "tx sweep"]
+            out.append(X("xx:names:%s" % first, ops))
+        # the basic metatype: registered on first use, whatever was registered under its name before
+        for pre in ([], ["tx meta %s" % hx("basic")], ["tx iface %s" % hx("basic")], ["tx iface %s" % hx("basic"), "tx meta %s" % hx("other")],
+                    ["tx meta null", "tx iface null"], ["tx basic 8", "tx generic 24 if"]):
+            out.append(X("xx:basicmeta:%d" % len(out), pre + ["tx basicmeta", "tx named %s -1" % hx("basic"), "tx basicmeta",
+                                                              "tx meta %s" % hx("basic"), "tx iface %s" % hx("basic"), "tx sweep"]))
+        out.append(X("xx:fresh", ["tx sweep"] + ["tx traits %d" % i for i in BUILTIN] + ["tx basic 0", "tx basic 12", "tx generic 0", "tx generic 40 f"]))
+        for kind in ("basic", "iface"):
+            cap = CAP[kind]
+            ops = [add_op(kind, k).replace("t ", "tx ", 1) for k in range(cap + 2)] + ["tx basicmeta", "tx sweep"]
+            out.append(X("xx:cap:%s" % kind, ops))
+        if tier != "quick":
+            ops = [add_op("meta", k).replace("t ", "tx ", 1) for k in range(CAP["meta"])] + ["tx basicmeta", "tx sweep"]
+            out.append(X("xx:cap:meta", ops))
+        r = gen.rng(id, tier, seed, "xx-random")
+        for h in range((40 if tier == "quick" else 400) * scale):
+            pool = ["basic", "logger", "abcd", "", "abc"]
+            ops = []
+            for k in range(r.choice([8, 25, 60])):
+                kind = r.choice(["basic", "generic", "iface", "meta", "iface", "meta", "traits", "named", "basicmeta"])
+                if kind == "basic":
+                    ops.append("tx basic %d" % r.choice([0, 1, 8, 300]))
+                elif kind == "generic":
+                    ops.append("tx generic %d%s" % (r.choice([0, 1, 24]), r.choice(["", " i", " if"])))
+                elif kind in ("iface", "meta"):
+                    c = r.random()
+                    nm = None if c < 0.15 else r.choice(pool) if c < 0.5 else "n%d.%s" % (len(pool), r.choice(["x", "basic"]))
+                    ops.append("tx %s %s" % (kind, hx(nm)))
+                    if nm:
+                        pool.append(nm)
+                elif kind == "traits":
+                    ops.append("tx traits %d" % r.choice([0x80 + r.randrange(0x40), 0x100 + r.randrange(30), 0xc0 + r.randrange(8), 0x900 + r.randrange(8), r.randrange(0x1101)]))
+                elif kind == "named":
+                    nm = r.choice([p for p in pool if p] or ["basic"])
+                    ops.append("tx named %s %d" % (hx(nm), r.choice([-1, len(nm), len(nm) + 1])))
+                else:
+                    ops.append("tx basicmeta")
+            ops.append("tx sweep")
+            out.append(X("xxrnd:%d" % h, ops))
+        return out
+
+    nontrivial = staticmethod(lambda script, c_lines: nontrivial(script, c_lines))
+    tally = staticmethod(lambda chk, script, c_lines: tally(chk, script, c_lines))
+    finding_key = staticmethod(lambda script, res: finding_key(script, res))
+
+
+extra_parts = [_XX]
 
 
 def nontrivial(script, c_lines):
